@@ -12,8 +12,21 @@ statement is about "any program using the public API".
 SNIPPETS = {}
 
 
-def _s(name, body, needs_io=False, defs=None):
-    SNIPPETS[name] = {"body": body.strip("\n"), "needs_io": needs_io, "defs": defs}
+def _s(name, body, needs_io=False, defs=None, must_print=None):
+    # must_print: lines the fragment prints on any tree where C20 holds (used only for the one
+    # clause of C20 that is absolute rather than differential: a forward declaration made with the
+    # library's own helpers denotes the same type as the definition)
+    SNIPPETS[name] = {"body": body.strip("\n"), "needs_io": needs_io, "defs": defs, "must_print": must_print or []}
+
+
+def required_lines(probe_cfg, io):
+    out = []
+    for s in chosen(probe_cfg):
+        sn = SNIPPETS[s]
+        if sn.get("needs_io") and not io:
+            continue
+        out += sn.get("must_print") or []
+    return out
 
 
 _s("neg_i8", r"""
@@ -413,6 +426,14 @@ _s("int_math_types", r"""
         std::printf("int_math_types %d %zu %d %zu %d %zu %lld %zu %d %zu\n", int(a.in(seconds)), sizeof(a), int(m.in(seconds)), sizeof(m), int(x.in(minutes)), sizeof(x),
                     static_cast<long long>(c.in(seconds)), sizeof(c), int(p.in(cubed(seconds))), sizeof(p));
 """)
+
+_s("fwd_helpers", r"""
+        std::printf("fwd_helpers pow %d %d %d %d %d %d\n", int(is_forward_declared_unit_valid(ForwardDeclareUnitPow<Seconds, -1>{})),
+                    int(is_forward_declared_unit_valid(ForwardDeclareUnitPow<Seconds, 2>{})), int(is_forward_declared_unit_valid(ForwardDeclareUnitPow<Seconds, 1, 2>{})),
+                    int(is_forward_declared_unit_valid(ForwardDeclareUnitPow<Seconds, -1, 2>{})), int(is_forward_declared_unit_valid(ForwardDeclareUnitPow<Minutes, -3, 2>{})),
+                    int(is_forward_declared_unit_valid(ForwardDeclareUnitPow<Hours, 2, 3>{})));
+        std::printf("fwd_helpers label [%s] [%s]\n", unit_label(typename ForwardDeclareUnitPow<Seconds, -1, 2>::unit_type{}), unit_label(UnitPowerT<Seconds, -1, 2>{}));
+""", must_print=["fwd_helpers pow 1 1 1 1 1 1"])
 
 def names():
     return sorted(SNIPPETS)
